@@ -5,7 +5,7 @@ def register(reg0):
     def reg(cid, technique, level, note, ref):
         level = level.replace(*SIZES[cid]) if cid in SIZES else level
         if cid in ADDENDA:
-            level = level + " As extended after four rounds of seeded changes: " + ADDENDA[cid][0]
+            level = level + " As extended after five rounds of seeded changes: " + ADDENDA[cid][0]
             if ADDENDA[cid][1]:
                 note = note + " " + ADDENDA[cid][1]
         reg0(cid, technique, level, note, ref)
@@ -237,16 +237,19 @@ ADDENDA = {
             "pair touching exactly on the line through its centres (ORIGIN_ON_V1), both argument orders.", ""),
     "C09": ("half of the primitive-only cases in the 'axial' / lattice classes; L without the distance from the origin.",
             "K24 (original GJK returns 0 through its tetrahedron exit), K27 (accelerated run ends on a degenerate simplex), K28 (shapes below 0.1)."),
-    "C10": ("grazing class (a primitive passing 1e-9..1e-4 of the size outside a polygon edge), on-axis and small-scale scenes.",
+    "C10": ("grazing class (a primitive passing 1e-9..1e-4 of the size outside a polygon edge), on-axis and small-scale scenes; class "
+            "'just outside the epsilon band' (line/segment pairs with sine 0.0105..0.08, lengths 0.2..0.6, crossing in projection).",
             "K25 was repaired (D20)."),
     "C11": ("same scene classes as C10.", ""),
     "C12": ("all 35 primitive functions are visited (the first version reached 15); returned points of primitive functions are compared "
             "where the optimum is unique; variant 'moved-by-update' applies the motion with update_pose to the objects that answered "
             "the base queries; scaled primitive scenes keep every feature inside [0.2, 1e2].", "K11, K24, K27 consequences keyed."),
+    "C13": ("batches of a single point judged against the oracle's truth.", ""),
     "C14": ("caller-array monitor: constructor arrays kept by the caller and shared with a sibling collider, and pose stacks, must not "
             "change.", ""),
     "C15": ("nearly parallel faces (tilt 1e-7..1e-3 rad); the world-frame summary of contact_forces(..., return_details=True) is judged "
-            "like the body-frame surface.", ""),
+            "like the body-frame surface; an order-dependent intersection flag counts only when the reported polygon has area (or is a K9 "
+            "point polygon): tetrahedra touching along a segment may be reported either way.", ""),
     "C16": ("torques follow the same relations as the forces (scale |f| x body size); body 2 moved by editing its pose in place "
             "between two queries; return_details relation; state-based comparison of the tree broad phase with brute force.",
             "K32: coarse contacts (<= 20 polygons) exceed the 5 % noise level under re-expression."),
